@@ -90,7 +90,10 @@ func runC17(c *Ctx) {
 					iff, ok := in.(*ssa.If)
 					return ok && strings.Contains(describe(iff.Cond), "strconv.Atoi(") && strings.Contains(describe(iff.Cond), "#1")
 				},
-				Forbid: func(in ssa.Instruction) bool { st, ok := in.(*ssa.Store); return ok && strings.Contains(describe(st.Val), "strconv.Atoi(") },
+				Forbid: func(in ssa.Instruction) bool {
+					st, ok := in.(*ssa.Store)
+					return ok && strings.Contains(describe(st.Val), "strconv.Atoi(")
+				},
 			})
 			R.Ob(c.siteKey(at, "part must be an integer"), c.P.InstrPos(at), len(v) == 0, "a part of the code is used without testing Atoi's error")
 		}
